@@ -22,6 +22,7 @@ program!(c01_xyz_lab_xyz, "C01", "quick", sv,
     let c: Xyz<D65, T> = Xyz::new(x, y, z);
     let lab: Lab<D65, T> = Lab::from_color_unclamped(c);
     let back: Xyz<D65, T> = Xyz::from_color_unclamped(lab);
+    T::output("lab.l", &lab.l); T::output("lab.a", &lab.a); T::output("lab.b", &lab.b); T::output("back.x", &back.x); T::output("back.y", &back.y); T::output("back.z", &back.z);
     let tol = T::tol(1e-9, 1e-5);
     T::ensure("rt.x", abs_le(back.x, x, tol));
     T::ensure("rt.y", abs_le(back.y, y, tol));
@@ -36,6 +37,7 @@ program!(c01_lab_xyz_lab, "C01", "quick", sv,
     let c: Lab<D65, T> = Lab::new(l, a, b);
     let xyz: Xyz<D65, T> = Xyz::from_color_unclamped(c);
     let back: Lab<D65, T> = Lab::from_color_unclamped(xyz);
+    T::output("xyz.x", &xyz.x); T::output("xyz.y", &xyz.y); T::output("xyz.z", &xyz.z); T::output("back.l", &back.l); T::output("back.a", &back.a); T::output("back.b", &back.b);
     let tol = T::tol(1e-6, 1e-3);
     T::ensure("rt.l", abs_le(back.l, l, tol));
     T::ensure("rt.a", abs_le(back.a, a, tol));
@@ -50,6 +52,7 @@ program!(c01_xyz_luv_xyz, "C01", "quick", s,
     let c: Xyz<D65, T> = Xyz::new(x, y, z);
     let luv: Luv<D65, T> = Luv::from_color_unclamped(c);
     let back: Xyz<D65, T> = Xyz::from_color_unclamped(luv);
+    T::output("luv.l", &luv.l); T::output("luv.u", &luv.u); T::output("luv.v", &luv.v); T::output("back.x", &back.x); T::output("back.y", &back.y); T::output("back.z", &back.z);
     let tol = T::tol(1e-9, 1e-5);
     T::ensure("rt.x", abs_le(back.x, x, tol));
     T::ensure("rt.y", abs_le(back.y, y, tol));
@@ -65,6 +68,7 @@ program!(c01_xyz_yxy_xyz, "C01", "quick", sv,
     let c: Xyz<D65, T> = Xyz::new(x, y, z);
     let yxy: Yxy<D65, T> = Yxy::from_color_unclamped(c);
     let back: Xyz<D65, T> = Xyz::from_color_unclamped(yxy);
+    T::output("yxy.x", &yxy.x); T::output("yxy.y", &yxy.y); T::output("back.x", &back.x); T::output("back.z", &back.z);
     let tol = T::tol(1e-9, 1e-5);
     T::ensure("rt.x", abs_le(back.x, x, tol));
     T::ensure("rt.y", abs_le(back.y, y, tol));
@@ -106,6 +110,7 @@ program!(c01_rgb_hsv_rgb, "C01", "quick", sv,
     let c: palette::rgb::Rgb<Srgb, T> = palette::rgb::Rgb::new(r, g, b);
     let hsv: Hsv<Srgb, T> = Hsv::from_color_unclamped(c);
     let back: palette::rgb::Rgb<Srgb, T> = palette::rgb::Rgb::from_color_unclamped(hsv);
+    T::output("hsv.h", &hsv.hue.into_raw_degrees()); T::output("hsv.s", &hsv.saturation); T::output("hsv.v", &hsv.value); T::output("back.r", &back.red); T::output("back.g", &back.green); T::output("back.b", &back.blue);
     let tol = T::tol(1e-9, 1e-5);
     T::ensure("rt.r", abs_le(back.red, r, tol));
     T::ensure("rt.g", abs_le(back.green, g, tol));
@@ -120,6 +125,7 @@ program!(c01_rgb_hsl_rgb, "C01", "quick", s,
     let c: palette::rgb::Rgb<Srgb, T> = palette::rgb::Rgb::new(r, g, b);
     let hsl: Hsl<Srgb, T> = Hsl::from_color_unclamped(c);
     let back: palette::rgb::Rgb<Srgb, T> = palette::rgb::Rgb::from_color_unclamped(hsl);
+    T::output("hsl.h", &hsl.hue.into_raw_degrees()); T::output("hsl.s", &hsl.saturation); T::output("hsl.l", &hsl.lightness); T::output("back.r", &back.red); T::output("back.g", &back.green); T::output("back.b", &back.blue);
     let tol = T::tol(1e-9, 1e-5);
     T::ensure("rt.r", abs_le(back.red, r, tol));
     T::ensure("rt.g", abs_le(back.green, g, tol));
@@ -135,6 +141,7 @@ program!(c01_hsv_hwb_hsv, "C01", "quick", sv,
     let c: Hsv<Srgb, T> = Hsv::new(h, s, v);
     let hwb: Hwb<Srgb, T> = Hwb::from_color_unclamped(c);
     let back: Hsv<Srgb, T> = Hsv::from_color_unclamped(hwb);
+    T::output("hwb.w", &hwb.whiteness); T::output("hwb.b", &hwb.blackness); T::output("back.s", &back.saturation); T::output("back.v", &back.value);
     let tol = T::tol(1e-9, 1e-5);
     T::ensure("rt.s", abs_le(back.saturation, s, tol));
     T::ensure("rt.v", abs_le(back.value, v, tol));
@@ -152,6 +159,7 @@ program!(c01_hsv_hsl_hsv, "C01", "quick", sv,
     let c: Hsv<Srgb, T> = Hsv::new(h, s, v);
     let hsl: Hsl<Srgb, T> = Hsl::from_color_unclamped(c);
     let back: Hsv<Srgb, T> = Hsv::from_color_unclamped(hsl);
+    T::output("hsl.s", &hsl.saturation); T::output("hsl.l", &hsl.lightness); T::output("back.s", &back.saturation); T::output("back.v", &back.value);
     let tol = T::tol(1e-9, 1e-5);
     T::ensure("rt.s", abs_le(back.saturation, s, tol));
     T::ensure("rt.v", abs_le(back.value, v, tol));
@@ -167,6 +175,7 @@ program!(c01_xyz_oklab_xyz, "C01", "quick", sv,
     let c: Xyz<D65, T> = Xyz::new(x, y, z);
     let ok: Oklab<T> = Oklab::from_color_unclamped(c);
     let back: Xyz<D65, T> = Xyz::from_color_unclamped(ok);
+    T::output("ok.l", &ok.l); T::output("ok.a", &ok.a); T::output("ok.b", &ok.b); T::output("back.x", &back.x);
     let tol = T::tol(1e-6, 1e-5);
     T::ensure("rt.x", abs_le(back.x, x, tol));
     T::ensure("rt.y", abs_le(back.y, y, tol));
@@ -181,6 +190,7 @@ program!(c01_lab_lch_lab, "C01", "quick", sv,
     let c: Lab<D65, T> = Lab::new(l, a, b);
     let lch: Lch<D65, T> = Lch::from_color_unclamped(c);
     let back: Lab<D65, T> = Lab::from_color_unclamped(lch);
+    T::output("lch.chroma", &lch.chroma); T::output("lch.hue", &lch.hue.into_raw_degrees()); T::output("back.a", &back.a); T::output("back.b", &back.b);
     let tol = T::tol(1e-9, 1e-3);
     T::identical("l_passes_through", &back.l, &l);
     T::ensure("rt.a", abs_le(back.a, a, tol));
@@ -196,6 +206,7 @@ program!(c01_luv_lchuv_luv, "C01", "quick", sv,
     let c: Luv<D65, T> = Luv::new(l, u, v);
     let p: Lchuv<D65, T> = Lchuv::from_color_unclamped(c);
     let back: Luv<D65, T> = Luv::from_color_unclamped(p);
+    T::output("p.chroma", &p.chroma); T::output("p.hue", &p.hue.into_raw_degrees()); T::output("back.u", &back.u); T::output("back.v", &back.v);
     let tol = T::tol(1e-9, 1e-3);
     T::identical("l_passes_through", &back.l, &l);
     T::ensure("rt.u", abs_le(back.u, u, tol));
@@ -210,6 +221,7 @@ program!(c01_oklab_oklch_oklab, "C01", "quick", sv,
     let c: Oklab<T> = Oklab::new(l, a, b);
     let p: Oklch<T> = Oklch::from_color_unclamped(c);
     let back: Oklab<T> = Oklab::from_color_unclamped(p);
+    T::output("p.chroma", &p.chroma); T::output("back.a", &back.a); T::output("back.b", &back.b);
     let tol = T::tol(1e-9, 1e-5);
     T::identical("l_passes_through", &back.l, &l);
     T::ensure("rt.a", abs_le(back.a, a, tol));
